@@ -13,7 +13,7 @@ roots and proofs are compared with the implementation byte for byte.
   find <prefix> <from|nil> <max>   -> find <k>=<v>,... | err    Trie.Find
   seek <prefix> <start> <0|1>      -> seek <k>=<v>,...          TrieStore.Seek (keys without the 0x70 byte)
   proof <key>                      -> proof <p1>,<p2>,... | err GetProof
-  verify <root> <key> <p1>,<p2>..  -> ok <val> | fail | panic | loop   VerifyProof (`_` = no proofs)
+  verify <root> <key> <p1>,<p2>..  -> ok <val> | fail | loop   VerifyProof (`_` = no proofs)
 -/
 import NeoModel.Base.Proto
 import NeoModel.Base.Sha256
@@ -102,7 +102,6 @@ def step (t : Node) (ws : List String) : Node × String :=
       match verifyProof H rb kb pl with
       | .found v => (t, "ok " ++ Hex.encode v)
       | .notFound => (t, "fail")
-      | .panic => (t, "panic")
       | .loop => (t, "loop")
     | _, _, _ => (t, "bad-op")
   | _ => (t, "bad-op")
